@@ -20,7 +20,7 @@ BOUNDS = {
              "shape names them), both operands of one shape with independently chosen units, seeded sample of 40 unit assignments per shape; "
              "exponents -2..2; operators + and -" % exprs.QUICK,
     "thorough": "values: all reals; operand shapes %s (exponents -3..3, depth <= 3), units m,cm,km,ft / s,min,h / kg,g,lbm, categories "
-                "length+depth, seeded sample of 400 unit assignments per shape" % exprs.THOROUGH,
+                "length+depth, seeded sample of 1500 unit assignments per shape and 20000 exponent-1 table pairs" % exprs.THOROUGH,
 }
 ASSUMPTIONS = ["A-FP: floats are exact reals", "dimensional model: magnitude = value * prod(slope(tobase_unit)^exp), scale-only units",
                "numeric equality is |a-b| <= 1e-13*(|a|+|b|+1) over the reals", "A-SHIM"]
@@ -30,7 +30,7 @@ CHUNK = 8
 def items(tier, seed):
     rng = random.Random(seed)
     names = exprs.QUICK if tier == "quick" else exprs.THOROUGH
-    per = 40 if tier == "quick" else 400
+    per = 40 if tier == "quick" else 1500
     nu = 3 if tier == "quick" else 4
     out = []
     for name in names:
@@ -52,7 +52,7 @@ def items(tier, seed):
         allp += [(qt, u, v) for u in us for v in us]
     simple = [("temperature", "degC", "degF"), ("temperature", "K", "degC"), ("temperature", "degF", "K"), ("temperature", "degC", "degC"),
               ("pressure", "psig", "Pa"), ("pressure", "bar", "psig"), ("length", "m", "ft")]
-    simple += seeded_sample(allp, 300 if tier == "quick" else 6000, seed)
+    simple += seeded_sample(allp, 300 if tier == "quick" else 20000, seed)
     for qt, u, v in simple:
         out.append({"t": "simple", "qt": qt, "A": ["leaf", u, qt], "B": ["leaf", v, qt], "op": rng.choice(["add", "sub"])})
     for i, c in enumerate(out):
